@@ -1245,7 +1245,7 @@ fn spec_layout_string(l: &mkfs::Layout, label: &[u8; 11], fc: Option<u32>, nf: O
 
 pub fn c15(ctx: &Ctx) -> Report {
     let mut rep = Report::new("C15");
-    rep.rule = "valid: boot sectors from the independent formatter over blocks-per-cluster 1..128, 1-2 FATs, reserved counts, root entry counts, 16/32-bit total fields, partition slots 0-3 with offsets, cluster counts at the FAT12/16/32 boundaries; invalid: every BPB/MBR/info field set to 0, 1 and max, random byte mutations of valid sectors, fully random sectors; each case mounted through the real API (panic = violation) and through the Lean model; distinct = distinct sector triples".into();
+    rep.rule = "valid: boot sectors from the independent formatter over blocks-per-cluster 1..128, 1-2 FATs, reserved counts, root entry counts, 16/32-bit total fields, partition slots 0-3 with offsets, cluster counts at the FAT12/16/32 boundaries; invalid: every BPB/MBR/info field set to 0, 1 and max, every PAIR of BPB fields at extreme values, random byte mutations of valid sectors, fully random sectors; each case mounted through the real API (panic = violation) and through the Lean model; distinct = distinct sector triples".into();
     let mut model = Model::spawn(&ctx.model_path);
     let mut rng = Rng::new(ctx.seed);
     let mut reqs: Vec<String> = Vec::new();
@@ -1360,6 +1360,33 @@ pub fn c15(ctx: &Ctx) -> Report {
                                     }
                                 }
                                 run(&mut rep, &mut reqs, &mut exps, &b2, slot, "field-boundary", None);
+                            }
+                        }
+                    }
+                    // ---- PAIRS of boot-sector fields at extreme values (a check on one field may hide unchecked
+                    // arithmetic on another: e.g. the 16-bit FAT size non-zero AND the 32-bit one huge)
+                    if ctx.thorough && grid % 4 == 1 || grid % 16 == 1 {
+                        let bf: Vec<(usize, usize)> = vec![(11, 2), (13, 1), (14, 2), (16, 1), (17, 2), (19, 2), (22, 2), (32, 4), (36, 4), (44, 4), (48, 2)];
+                        let vals: [u64; 4] = [1, 0xFFFF_FFFF, 0x8000_0000, 0];
+                        for (i, &(o1, w1)) in bf.iter().enumerate() {
+                            for &(o2, w2) in bf.iter().skip(i + 1) {
+                                for &v1 in &vals {
+                                    for &v2 in &vals {
+                                        let mut b2 = blocks.clone();
+                                        let mut blk = b2.get(&layout.lba_start).copied().unwrap_or([0u8; 512]);
+                                        for k in 0..w1 {
+                                            blk[o1 + k] = (v1 >> (8 * k)) as u8;
+                                        }
+                                        for k in 0..w2 {
+                                            blk[o2 + k] = (v2 >> (8 * k)) as u8;
+                                        }
+                                        b2.insert(layout.lba_start, blk);
+                                        run(&mut rep, &mut reqs, &mut exps, &b2, slot, "field-pair-boundary", None);
+                                    }
+                                }
+                                if reqs.len() > 300 {
+                                    check_pairs_mount(&mut rep, &mut model, &mut reqs, &mut exps);
+                                }
                             }
                         }
                     }
